@@ -28,6 +28,7 @@ type Obligation struct {
 	Smoke  bool // must NOT be refutable: reach satisfiable
 	Models []string // terms to evaluate in a model
 	Top    bool   // clause marked as the property itself
+	Blk    *ssa.BasicBlock // block of the top-level function where the obligation arises (nil: end of function)
 }
 
 type Enc struct {
@@ -61,6 +62,9 @@ type Enc struct {
 	modelDesc  []modelVar
 	calleesUsed map[string]bool
 	ownerSubs  bool
+	stepBlk    []*ssa.BasicBlock // origin block (top-level function) of each step; nil = always relevant
+	curBlk     *ssa.BasicBlock
+	anc        map[*ssa.BasicBlock]map[*ssa.BasicBlock]bool
 }
 
 type modelVar struct {
@@ -116,6 +120,12 @@ func (e *Enc) declareFun(name string, args []string, res string) {
 func (e *Enc) define(base, srt, term string) string {
 	name := sym(e.fresh(base))
 	e.declared[name] = true
+	if strings.HasPrefix(srt, "(Array") {
+		// arrays are named by constants with a defining equation (always consistent), so that
+		// quantifier patterns mention a constant rather than an expanded ite/store term
+		e.decls = append(e.decls, fmt.Sprintf("(declare-fun %s () %s)", name, srt), fmt.Sprintf("(assert (= %s %s))", name, term))
+		return name
+	}
 	e.decls = append(e.decls, fmt.Sprintf("(define-fun %s () %s %s)", name, srt, term))
 	return name
 }
@@ -141,6 +151,7 @@ func (e *Enc) assume(reach, f string) {
 		return
 	}
 	e.steps = append(e.steps, "(assert "+g+")")
+	e.stepBlk = append(e.stepBlk, e.curBlk)
 }
 
 func (e *Enc) note(a string) { e.assumptions[a] = true }
@@ -190,6 +201,36 @@ func (e *Enc) strConstRef(content string) string {
 	e.strConst[content] = r
 	e.strList = append(e.strList, content)
 	return r
+}
+
+// constContent: the bytes of a literal constant slice term.
+func (e *Enc) constContent(t string) (string, bool) {
+	if t == nilSlc {
+		return "", true
+	}
+	if !strings.HasPrefix(t, "(mk-slc ") {
+		return "", false
+	}
+	parts := splitTop(t[8 : len(t)-1])
+	if len(parts) != 4 {
+		return "", false
+	}
+	for c, r := range e.strConst {
+		if r == parts[0] {
+			var off, ln int
+			if _, err := fmt.Sscan(parts[1], &off); err != nil {
+				return "", false
+			}
+			if _, err := fmt.Sscan(parts[2], &ln); err != nil {
+				return "", false
+			}
+			if off < 0 || off+ln > len(c) {
+				return "", false
+			}
+			return c[off : off+ln], true
+		}
+	}
+	return "", false
 }
 
 func (e *Enc) strConstSlc(content string) string {
@@ -242,8 +283,11 @@ func (e *Enc) script(o *Obligation, dropQuant bool) string {
 		body.WriteString(d)
 		body.WriteByte('\n')
 	}
-	for _, s := range e.steps[:o.Step] {
+	for si, s := range e.steps[:o.Step] {
 		if dropQuant && hasQuantifier(s) {
+			continue
+		}
+		if !e.relevant(e.stepBlk[si], o.Blk) {
 			continue
 		}
 		body.WriteString(s)
@@ -266,10 +310,43 @@ func (e *Enc) script(o *Obligation, dropQuant bool) string {
 	body.WriteString("(check-sat)\n")
 	bs := body.String()
 	var b strings.Builder
-	b.WriteString(preludeFor(bs + e.W.specPrelude(), dropQuant))
-	b.WriteString(e.W.specPreludeFor(dropQuant))
+	sp := e.W.specPreludeFor(bs, dropQuant)
+	b.WriteString(preludeFor(bs+sp, dropQuant))
+	b.WriteString(sp)
 	b.WriteString(bs)
 	return b.String()
+}
+
+// relevant: can a fact established in block from matter at block at? Only if from reaches at
+// in the loop-cut control-flow graph of the top-level function.
+func (e *Enc) relevant(from, at *ssa.BasicBlock) bool {
+	if from == nil || at == nil || from == at {
+		return true
+	}
+	if e.anc == nil {
+		e.anc = map[*ssa.BasicBlock]map[*ssa.BasicBlock]bool{}
+	}
+	set, ok := e.anc[at]
+	if !ok {
+		set = map[*ssa.BasicBlock]bool{}
+		var stack []*ssa.BasicBlock
+		stack = append(stack, at)
+		for len(stack) > 0 {
+			x := stack[len(stack)-1]
+			stack = stack[:len(stack)-1]
+			for _, p := range x.Preds {
+				if x.Dominates(p) {
+					continue // back edge (cut)
+				}
+				if !set[p] {
+					set[p] = true
+					stack = append(stack, p)
+				}
+			}
+		}
+		e.anc[at] = set
+	}
+	return set[from]
 }
 
 // oblige records an obligation; afterwards the goal is assumed (first-cause reporting).
@@ -281,7 +358,7 @@ func (e *Enc) oblige(kind, key string, pos token.Pos, reach, goal string) *Oblig
 	if n > 0 || kind == "index" || kind == "slice" || kind == "nil" || kind == "make" || kind == "div" {
 		name = fmt.Sprintf("%s#%d", base, n)
 	}
-	o := &Obligation{Name: name, Kind: kind, Pos: pos, Step: len(e.steps), Reach: reach, Goal: goal}
+	o := &Obligation{Name: name, Kind: kind, Pos: pos, Step: len(e.steps), Reach: reach, Goal: goal, Blk: e.curBlk}
 	if goal == "true" || reach == "false" {
 		// trivially discharged; still counted
 		o.Goal = "true"
@@ -454,7 +531,7 @@ func (e *Enc) slcInv(c string, t types.Type, st *State) {
 	inv := sAnd(
 		sApp("<=", "0", slcLen(c)), sApp("<=", slcLen(c), slcCap(c)), sApp("<=", slcCap(c), maxAlloc),
 		sApp("<=", "0", slcOff(c)), sApp("<=", slcOff(c), maxAlloc),
-		sImp(sEq(slcArr(c), "0"), sEq(slcCap(c), "0")))
+		sImp(sEq(slcArr(c), "0"), sAnd(sEq(slcCap(c), "0"), sEq(slcOff(c), "0"))))
 	e.axiom(inv)
 	if st != nil {
 		e.assume(st.reach, sApp("<", slcArr(c), st.get("alloc")))
@@ -473,7 +550,7 @@ func (e *Enc) typeInvOnLoad(v Val, t types.Type, st *State) {
 		e.assume(st.reach, sAnd(
 			sApp("<=", "0", slcLen(c)), sApp("<=", slcLen(c), slcCap(c)), sApp("<=", slcCap(c), maxAlloc),
 			sApp("<=", "0", slcOff(c)), sApp("<=", slcOff(c), maxAlloc),
-			sImp(sEq(slcArr(c), "0"), sEq(slcCap(c), "0")),
+			sImp(sEq(slcArr(c), "0"), sAnd(sEq(slcCap(c), "0"), sEq(slcOff(c), "0"))),
 			sApp("<", slcArr(c), st.get("alloc"))))
 	case KRef, KPtrField:
 		e.assume(st.reach, sApp("<", v.T, st.get("alloc")))
